@@ -120,3 +120,21 @@ Section Par.
   Definition par_ref (services : list N) : par_out :=
     collect_data (map (fun s => (s, D1 s)) (sortN services)) (D1 m_) (D1 v_) (D1 r_) (map D1 a_).
 End Par.
+
+(* ---- (12.26) the accumulation output log θ′: the set b of (service, hash) pairs of ALL rounds of a block,
+   laid out as a sequence ordered by service and then by hash.  The map delivers b in arbitrary order. ---- *)
+Definition pair_leb (x y : N * bytes) : bool :=
+  (fst x <? fst y) || ((fst x =? fst y) && bytes_leb (snd x) (snd y)).
+
+Fixpoint insertP (leb : N * bytes -> N * bytes -> bool) (x : N * bytes) (l : list (N * bytes)) : list (N * bytes) :=
+  match l with
+  | [] => [x]
+  | y :: t => if leb x y then x :: l else y :: insertP leb x t
+  end.
+Definition sortP (leb : N * bytes -> N * bytes -> bool) (l : list (N * bytes)) : list (N * bytes) :=
+  fold_right (insertP leb) [] l.
+
+Definition theta_of (delivered : list (N * bytes)) : list (N * bytes) := sortP pair_leb delivered.
+
+(* the comparator without the tie-break on the hash: two outputs of one service compare equal *)
+Definition service_only_leb (x y : N * bytes) : bool := fst x <=? fst y.
